@@ -7,6 +7,16 @@ parses; the JSON messages of 4.1 / 4.3), MCRFC6962Wire.tla (field values at the 
 encodings).  TLC checks the model-level laws and exports every case; harness/c04 executes each case
 against the repository's types and functions (TestReplay) and feeds the entry parsers real
 certificates encoded by the independent encoders of harness/ref (TestRealEntries).
+
+spec/codec/EntryOfChain.tla (on Precert.tla): the entry RFC 6962 3.1 / 3.2 prescribes for a chain of real
+certificates - whose key is hashed, whose name and key identifier the TBSCertificate carries, how the validity is
+written (RFC 5280 4.1.2.5: UTCTime through 2049), which extensions remain - as a function of route (x509 / precert /
+embedded SCT), api, issuance (directly, deeper, through three kinds of precertificate signing certificate), how much
+of the chain is passed, notBefore / notAfter on both sides of 1950 and 2050, key types, poison position, timestamp,
+SCT extensions.  MCEntryOfChain.tla checks the laws and exports every case; harness/c04 TestEntryOfChain issues each
+with std crypto/x509 and compares ct.MerkleTreeLeafFromChain / FromRawChain / ForEmbeddedSCT, tls.Marshal,
+LeafHashForLeaf, SerializeSCTSignatureInput, VerifySCTSignature with the specification's expectation and byte for
+byte with harness/ref and with the final CA's own TBSCertificate.
 """
 import json
 
@@ -26,6 +36,13 @@ ASSUME = [
     "the signature input and by the entry parsers",
     "unasserted: what the entry parsers do with a MerkleTreeLeaf whose version byte is not v1 (the raw codec is asserted)",
     "SHA-256 is the standard library's",
+    "entries from real certificates (EntryOfChain.tla): certificates are DER as a conforming CA (std crypto/x509) writes "
+    "them - validity through 2049 as UTCTime, GeneralizedTime before 1950 and from 2050; years {1949, 1950, 1999, 2000, "
+    "2049, 2050, 2051, 9999} x {first, a middle, last second}; subject keys {p256, p384, rsa2048, ed25519}; CA keys "
+    "{p256, p384, rsa2048}; extensions KU, BC, AKI, SAN with the poison / SCT list last, before the AKI or first; "
+    "what the functions do with certificates that are not DER (a re-encoded validity) is unasserted",
+    "named clause NoIssuerNoEntry: a precert entry is refused when the certificate of the CA that issues the final "
+    "certificate is not passed (leaf alone; precertificate signing certificate without its issuer)",
 ]
 
 
@@ -38,6 +55,9 @@ def run(ctx, replay=None):
         if "case" in data:
             path = ctx.write_ndjson("replay.ndjson", [data["case"]])
             ctx.go_test("c04", run="TestReplay$", env={"VERIF_CASES": path})
+        elif "entrycase" in data:
+            path = ctx.write_ndjson("replay-entry.ndjson", [data["entrycase"]])
+            ctx.go_test("c04", run="TestEntryOfChain$", env={"VERIF_ENTRY_CASES": path})
         else:
             ctx.go_test("c04", run="TestRealEntries$")
         return
@@ -56,3 +76,20 @@ def run(ctx, replay=None):
     ctx.go_test("c04", run="TestReplay$", env={"VERIF_CASES": path}, timeout=ctx.pick(900, 3000))
     # 3. real certificates through the entry parsers
     ctx.go_test("c04", run="TestRealEntries$", name="c04real")
+    # 4. the entry of a chain of real certificates: laws of EntryOfChain.tla on every case, every case issued with the
+    #    standard library and derived by the repository's functions
+    r = ctx.tlc("codec", "MCEntryOfChain", ctx.pick("MCEntryOfChain.cfg", "MCEntryOfChainThorough.cfg"), workers=1,
+                timeout=ctx.pick(600, 3000))
+    entries = r.records.get("ENTRY", [])
+    if len(entries) < 800:
+        raise Infra("TLC exported only %d entry cases" % len(entries))
+    for dim, vals in (("route", 3), ("iss", 5), ("cut", 4), ("order", 3), ("key", 4), ("ikey", 3), ("api", 2), ("ts", 5), ("ext", 3)):
+        if len({e["c"][dim] for e in entries}) != vals:
+            raise Infra("entry cases do not cover dimension %s" % dim)
+    years = {(e["c"]["nb"]["y"], e["c"]["na"]["y"]) for e in entries}
+    if not {(2000, 2049), (2000, 2050), (2000, 2051), (1949, 1950), (2050, 2050), (2049, 2050)} <= years:
+        raise Infra("entry cases do not cover the validity boundaries")
+    ctx.log("entry cases: %d (%d without an entry)" % (len(entries), sum(1 for e in entries if not e["expect"]["ok"])))
+    path = ctx.write_ndjson("entrycases.ndjson", entries)
+    del entries
+    ctx.go_test("c04", run="TestEntryOfChain$", env={"VERIF_ENTRY_CASES": path}, name="c04entry", timeout=ctx.pick(900, 3000))
